@@ -70,7 +70,7 @@ def check_registry(ctx, lib):
         # what the map holds under that key) or the map's own None
         gets = [t for _, t in b.calls() if re.match(HM + "get$", t["callee"])]
         others = [t["callee"] for _, t in b.calls() if not re.match(HM + "get$", t["callee"]) and
-                  not re.match(r"^(std::convert::AsRef::as_ref|std::ops::Deref::deref|std::borrow::Borrow::borrow)$", t["callee"])]
+                  not re.match(r"^(std::convert::AsRef::as_ref|std::ops::Deref::deref|std::borrow::Borrow::borrow|std::ops::Try::branch|std::ops::FromResidual::from_residual)$", t["callee"])]
         ok = len(gets) == 1 and not others
         if ok:
             a = [o.of_operand(x) for x in gets[0]["args"]]
